@@ -100,6 +100,25 @@ def check(ctx):
                     continue
                 ap = an.access_path(fn, owner, node)
                 nstores += 1
+                top_ = fn
+                while top_.parent is not None:
+                    top_ = top_.parent
+                if top_.cls is None:
+                    # a store into some configuration's _data from outside Config (a helper that writes values back): the default
+                    # marks of that same object have to be brought in line on the way out -- by name of the receiver, since the
+                    # object is not one the access paths can follow
+                    otxt = ast.unparse(owner)
+                    g_ = an.cfg(fn)
+                    syncs = {m for m in g_.nodes if m.kind == "call" and isinstance(m.ast.func, ast.Attribute) and m.ast.func.attr in ("add", "discard", "remove", "update", "difference_update")
+                             and isinstance(m.ast.func.value, ast.Attribute) and m.ast.func.value.attr == "_default_value_keys"
+                             and ast.unparse(m.ast.func.value.value) == otxt}
+                    syncs |= {m for m in g_.nodes if m.kind == "assign" and isinstance(m.ast, ast.Assign) and any(
+                        isinstance(t, ast.Attribute) and t.attr == "_default_value_keys" and ast.unparse(t.value) == otxt for t in m.ast.targets)}
+                    ctx.ob("pairing.foreign-store", fn, node.ast, bool(syncs),
+                           "the default marks of the configuration written to are updated by the same function" if syncs else
+                           "%s writes into a configuration's _data (%s) and never touches its default marks: a value put back or "
+                           "copied this way is reported as user-defined / default whatever it was" % (fn.qualname, ast.unparse(node.ast)[:50]), node=node)
+                    continue
                 default_route, _ = only_default_route(an, fn)
                 pol = "MARK" if default_route else "UNMARK"
                 ok, why = paired(an, fn, node, ap, pol)
